@@ -20,7 +20,7 @@ class Scripted(np.random.Generator):
         return np.array(self.picks[: (size if size is not None else 1)], dtype="i8")
 
 def gen(rng: random.Random, tier: str):
-    n = {"quick": 800, "thorough": 20000}[tier]
+    n = {"quick": 800, "thorough": 80000}[tier]
     for k in range(n):
         N = rng.randint(0, 8)
         raw = []
@@ -120,4 +120,4 @@ SPEC = CheckSpec(
               "LK.Stoch.C19_Stochastic2_softmaxWeights_sum"],
     correspondence_ops=["c19.rank", "c19.linear"],
     nontrivial_rule="distinct (scores, transform, n, draws) reaching ≥1 of: uniform selection, each transform, no eligible item, non-finite scores, degenerate range, negative scores, run-time n, first-position odds (thorough)",
-    budgets={"quick": 800, "thorough": 20000}, gen=gen, run=run, shrink=shrink)
+    budgets={"quick": 800, "thorough": 80000}, gen=gen, run=run, shrink=shrink)
